@@ -29,7 +29,7 @@ def delete_fields(fields, resources=None, regex=True):
                 for sf in schema_fields:
                     skip = False
                     for f in field_res:
-                        if f.match(sf['name']):
+                        if f.fullmatch(sf['name']):
                             skip = True
                             matched.add(f.pattern)
                             break
